@@ -9,7 +9,7 @@ from .actions import ActionAnalyzer, CHOICE, REPETITIONS, Reads, info_points
 from .core import AnalysisError, Report
 from .emit import Folder
 from .grammar import GNode, Grammar, Scope, first_terms, is_constant, VARIABLE_TERMINALS
-from .prog import (Program, bind_call, dotted, enclosing, func_params, guards_of, parent, required_params, single_def, unparse,
+from .prog import (Program, bind_call, order_free_use, dotted, enclosing, func_params, guards_of, parent, required_params, single_def, unparse,
                    walk_no_nested)
 from .rules_grammar import ctx_label, gloc, parse_root
 
@@ -764,6 +764,11 @@ def rule_no_reorder(ctx, rep: Report, rid="G6", package="gtwrap/interface_parser
         n += 1
         found = []
         for c in ast.walk(mi.tree):
+            # a set that only answers questions (membership, truth, algebra, an error message) reorders nothing that is kept
+            if (isinstance(c, (ast.Set, ast.SetComp)) or (isinstance(c, ast.Call) and isinstance(c.func, ast.Name) and c.func.id in ("set", "frozenset", "sorted"))) \
+                    and (enclosing(c, ast.Raise) is not None or (not (isinstance(c, ast.Call) and c.func.id == "sorted")
+                                                                  and order_free_use(c, enclosing(c, (ast.FunctionDef, ast.Module)) or mi.tree))):
+                continue
             if isinstance(c, ast.Call):
                 if isinstance(c.func, ast.Name) and c.func.id in REORDER_CALLS:
                     found.append((c.func.id, c.lineno))
